@@ -230,8 +230,12 @@ class Site:
         import web.web_app as web_app
         from web import i_web
         self._real_threading = job_control.threading
-        shim = types.SimpleNamespace(
-            Thread=FakeThread, RLock=self._real_threading.RLock)
+        # only Thread is replaced; every other name is the real module's
+        shim = types.SimpleNamespace(**{
+            name: getattr(self._real_threading, name)
+            for name in dir(self._real_threading)
+            if not name.startswith('__')})
+        shim.Thread = FakeThread
         job_control.threading = shim
         self.job_control = job_control
         FakeThread.registry = []
